@@ -76,6 +76,17 @@ func (r *Report) Add(stat string, n int) {
 	r.Stats[stat] = v + n
 }
 
+// Progress records what is about to be executed, so that a crash of the process (a panic in a
+// server or client goroutine cannot be recovered here) can be attributed by the check.
+func (r *Report) Progress(v any) {
+	p := os.Getenv("VERIF_OUT")
+	if p == "" {
+		return
+	}
+	b, _ := json.Marshal(v)
+	os.WriteFile(p+".progress", b, 0o644)
+}
+
 func (r *Report) Write() error {
 	p := os.Getenv("VERIF_OUT")
 	if p == "" {
